@@ -93,13 +93,84 @@ def _has_cg(expr):
     return expr['k'] == 'I' and expr['op']['k'] in ('dense', 'toeplitz', 'block')
 
 
+@st.composite
+def complex_case(draw, tier, mode):
+    """Operators whose OUTPUT dtype differs from their input dtype: complex coefficients on real data (einsum
+    blocks or broadcast-diagonal values), alone or composed with a real operator. The generic as_matrix must
+    allocate its result in the output dtype."""
+    n = draw(st.integers(1, 4))
+    m = draw(st.integers(1, 4))
+    extra = [draw(st.integers(1, 2))] if draw(st.booleans()) else []
+    kind = draw(st.sampled_from(['dense', 'dense', 'bdiag', 'dense_then_real', 'real_then_dense']))
+    vals = st.sampled_from([-2.0, -1.0, 0.0, 0.5, 1.0, 2.0, 3.0])
+    re = [[draw(vals) for _ in range(n)] for _ in range(m)]
+    im = [[draw(vals) for _ in range(n)] for _ in range(m)]
+    dre = [draw(vals) for _ in range(n)]
+    dim = [draw(st.sampled_from([-1.0, 1.0, 2.0, 0.5])) for _ in range(n)]
+    dt = draw(st.sampled_from(['float32', 'float64'])) if mode == 'x64' else 'float32'
+    return {'complex': {'kind': kind, 'n': n, 'm': m, 'extra': extra, 're': re, 'im': im, 'dre': dre, 'dim': dim,
+                        'dtype': dt, 'seed': draw(st.integers(0, 50))}}
+
+
+def _check_complex(r, mode):
+    import jax
+    import jax.numpy as jnp
+
+    from furax._base.core import AbstractLinearOperator
+    from furax._base.dense import DenseBlockDiagonalOperator
+    from furax._base.diagonal import BroadcastDiagonalOperator, DiagonalOperator
+
+    n, m, extra = r['n'], r['m'], tuple(r['extra'])
+    dt = r['dtype']
+    cdt = 'complex64' if dt == 'float32' else 'complex128'
+    S = jax.ShapeDtypeStruct((n,) + extra, jnp.dtype(dt))
+    B = np.asarray(r['re'], dtype=float) + 1j * np.asarray(r['im'], dtype=float)
+    d = np.asarray(r['dre'], dtype=float) + 1j * np.asarray(r['dim'], dtype=float)
+    e = int(np.prod(extra)) if extra else 1
+    if r['kind'] == 'bdiag':
+        op = must_not_raise('build', DiagonalOperator if False else BroadcastDiagonalOperator, jnp.asarray(d, dtype=cdt),
+                            axis_destination=0, in_structure=S)
+        M = np.kron(np.diag(d), np.eye(e))
+    else:
+        dense = must_not_raise('build', DenseBlockDiagonalOperator, jnp.asarray(B, dtype=cdt), S)
+        M = np.kron(B, np.eye(e))
+        if r['kind'] == 'dense_then_real':
+            dr = np.asarray(r['dre'], dtype=float)
+            op = dense @ DiagonalOperator(jnp.asarray(dr, dtype=dt), axis_destination=0, in_structure=S)
+            M = M @ np.kron(np.diag(dr), np.eye(e))
+        elif r['kind'] == 'real_then_dense':
+            op = -dense
+            M = -M
+        else:
+            op = dense
+    x = (((np.arange(n * e) * 3 + r['seed']) % 7) - 3).astype(float)
+    xv = jnp.asarray(x.reshape((n,) + extra), dtype=dt)
+    y = must_not_raise('mv', op.mv, xv)
+    want = M @ x
+    got = np.asarray(y).reshape(-1)
+    tol = 1e-5 * (1 + np.abs(want).max(initial=0))
+    if got.shape != want.shape or np.abs(got - want).max(initial=0) > tol:
+        raise Violation('complex:mv', f'op(x) = {got[:4]} but the reference gives {want[:4]}')
+    for name, f in (('as_matrix', op.as_matrix), ('generic-as_matrix', lambda: AbstractLinearOperator.as_matrix(op))):
+        A = np.asarray(must_not_raise('complex:' + name, f))
+        if A.shape != M.shape or np.abs(A - M).max(initial=0) > 1e-5 * (1 + np.abs(M).max(initial=0)):
+            raise Violation('complex:' + name, f'{name}() differs from the matrix of basis applications (complex coefficients on {dt} input): '
+                                               f'dtype {A.dtype}, max diff {np.abs(A - M).max(initial=0) if A.shape == M.shape else A.shape}')
+        if np.abs((A @ x) - got).max(initial=0) > tol:
+            raise Violation('complex:mv-vs-' + name, f'op(x) differs from {name}() @ flatten(x)')
+    return {'nontrivial': True, 'classes': ['complex:' + r['kind']]}
+
+
 def strategy(tier, mode):
-    return st.one_of(case_st(tier, mode), override_case(tier, mode))
+    return st.one_of(case_st(tier, mode), case_st(tier, mode), override_case(tier, mode), override_case(tier, mode),
+                     complex_case(tier, mode))
 
 
 def check(case, mode):
     from furax._base.core import AbstractLinearOperator
 
+    if 'complex' in case:
+        return _check_complex(case['complex'], mode)
     defs = case.get('defs', [])
     den = ops.denote_case(case)
     op = must_not_raise('build', ops.build_case, case)
